@@ -34,6 +34,45 @@ func runC16(c *Ctx) {
 	}
 	fc, fp := pick(cons), pick(prod)
 
+	// never panic: a reflective re-slicing / indexing of the caller's value (v.Slice(i, j), v.Index(i)) has its bounds
+	// tested against v.Len() first — skipping more header lines than an in-memory source has is not an error of the caller
+	for _, f := range []*ssa.Function{fc, fp} {
+		for _, fn := range withClosures(f) {
+			for _, ci := range callsIn(fn, "(reflect.Value).Slice", "(reflect.Value).Slice3", "(reflect.Value).Index") {
+				recv, a := callArgs(ci.Common())
+				if k, isK := constInt(a[0]); isK && k == 0 {
+					continue
+				}
+				isLen := func(v ssa.Value) bool {
+					lc := asCall(v)
+					if lc == nil || calleeName(&lc.Call) != "(reflect.Value).Len" {
+						return false
+					}
+					r2, _ := callArgs(&lc.Call)
+					return sameOrigins(r2, recv) || r2 == recv
+				}
+				low := a[0]
+				isLow := func(v ssa.Value) bool { return v == low || sameVal(v, low) }
+				inRange := func(cond ssa.Value, branch bool) bool {
+					cnd, b := stripNot(cond, branch)
+					bo, ok := cnd.(*ssa.BinOp)
+					if !ok {
+						return false
+					}
+					switch {
+					case isLow(bo.X) && isLen(bo.Y):
+						return (bo.Op == token.LEQ || bo.Op == token.LSS) && b || (bo.Op == token.GTR || bo.Op == token.GEQ) && !b && bo.Op == token.GTR
+					case isLen(bo.X) && isLow(bo.Y):
+						return (bo.Op == token.GEQ || bo.Op == token.GTR) && b || bo.Op == token.LSS && !b
+					}
+					return false
+				}
+				// a loop counter below Len() is in range as well
+				okIdx := guardedBy(ci, nil, inRange)
+				c.obI("R16.3", ci, "reflective-bounds-tested", okIdx, "a reflective Slice/Index with a non-zero lower bound is preceded by a test of that bound against Len() (an out-of-range bound panics in package reflect)", calleeName(ci.Common())+" with an untested bound "+describe(low))
+			}
+		}
+	}
 	// R16.1
 	for _, f := range []*ssa.Function{fc, fp} {
 		fns := withClosures(f)
@@ -502,6 +541,17 @@ func runC16(c *Ctx) {
 		_, a := callArgs(w.Common())
 		okW, _ := allOrigins(a[0], oCall(0, "(rt.CSVReader).Read"))
 		c.obI("R16.4", w, "writes-what-was-read", okW, "every record read is handed to the writer unchanged", "")
+		// … and none is passed over: from a successful Read of the copy loop, the next Read is reached only through Write
+		// (no record — an empty one, a single empty field — is judged not worth copying)
+		for _, o := range originsOf(a[0]) {
+			rd, isRd := o.V.(*ssa.Call)
+			if !isRd || rd.Parent() != pc {
+				continue
+			}
+			readFailed := factNil(vIs(resultOf(rd, 1)), false)
+			skipped := pathExists(pc, rd, rd, readFailed, isOneOf(w))
+			c.obI("R16.4", rd, "every-record-read-is-written", !skipped, "in the copy loop the next record is read only after the one just read was written: no record is skipped", "a record that was read can be dropped without being written")
+		}
 	}
 	// WriterTo branch: pipe ends closed on every exit; Wait's error returned
 	gos := callsIn(fp, "(*golang.org/x/sync/errgroup.Group).Go")
